@@ -20,6 +20,13 @@ Record mobs := mkMobs {
   m_gets : list (bytes * option ometa);
 }.
 
+(** one Reader, one unit table and ONE Filter over a sequence of lines *)
+Inductive sitem :=
+| SBench (written : list (bytes * b64))               (* the (unit, value) pairs of the line *)
+         (mbits : list bool) (kept : bool)            (* Match.Test per value, Match.Apply's result *)
+         (after : list (b64 * bytes * b64 * bytes))   (* res.Values after Apply *)
+| SUnit (u val : bytes) (recs : list (Z * option (bytes * bytes * bytes))).
+
 Inductive case :=
 | KTable (space : list (N * N)) (c_1em9 c_1e6 c_1e9 : b64)
 | KUnit (u : bytes) (v : b64)
@@ -27,7 +34,8 @@ Inductive case :=
         (tidy2 : b64 * bytes)            (* Tidy of that again *)
         (rd : option (list oval))        (* the reader's Values for "BenchmarkX 1 v u" *)
         (md : option mobs)
-        (fl : list (bytes * bool)).      (* literal, does .unit:literal keep the value *)
+        (fl : list (bytes * bool))       (* literal, does .unit:literal keep the value *)
+| KSeq (lit : bytes) (items : list sitem) (gets : list (bytes * option (bytes * bytes * bytes))).
 
 (* not Sx.as_N: it uses Z.to_N, whose extracted name collides with the
    driver's use of Byte.to_N (reported) *)
@@ -60,6 +68,17 @@ Definition decode (s : sx) : option case :=
                  | _ => None end) md;
       do fl <- as_list (as_pair as_b as_bool) fl;
       Some (KUnit u v t1 t2 rd md fl)
+  | SL [SZ 2; SB lit; items; gets] =>
+      do items <- as_list (fun s => match s with
+          | SL [SZ 0; wr; mb; kept; after] =>
+              do wr <- as_list (as_pair as_b as_f64) wr; do mb <- as_list as_bool mb;
+              do kept <- as_bool kept; do after <- as_list as_oval after;
+              Some (SBench wr mb kept after)
+          | SL [SZ 1; SB u; SB v; recs] =>
+              do recs <- as_list (as_pair as_z (as_opt as_ometa)) recs; Some (SUnit u v recs)
+          | _ => None end) items;
+      do gets <- as_list (as_pair as_b (as_opt as_ometa)) gets;
+      Some (KSeq lit items gets)
   | _ => None
   end.
 
@@ -90,6 +109,34 @@ Definition model_meta (u u2 val2 : bytes) : list (Z * option ometa) * list umeta
 Definition recs_eqb (a b : list (Z * option ometa)) : bool :=
   list_eqb (fun x y => Z.eqb (fst x) (fst y) && option_eqb ometa_eqb (snd x) (snd y)) a b.
 
+(** the sequence: every line judged on its own; the unit table threaded.
+    [tidyf] maps a written unit to the table's key (model: Tidy; spec: the rewrite),
+    [rv] gives the value a reader must report. *)
+Definition seq_ok (tidyf : bytes -> bytes) (rv : b64 -> bytes -> value)
+           (lit : bytes) (items : list sitem) (gets : list (bytes * option ometa)) : bool :=
+  let step (st : bool * list umeta) (it : sitem) : bool * list umeta :=
+    let '(ok, m) := st in
+    match it with
+    | SBench wr mb kept after =>
+        let vals := map (fun '(u, v) => rv v u) wr in
+        let '(k, any) := unit_filter_apply (beq lit) vals in
+        (ok && list_eqb Bool.eqb (map (unit_match (beq lit)) vals) mb
+            && Bool.eqb any kept
+            && list_eqb oval_eqb (map oval_of k) after, m)
+    | SUnit u va recs =>
+        let tu := tidyf u in
+        match units_find m tu key_better with
+        | Some have =>
+            if beq (u_value have) va then (ok && recs_eqb recs [], m)
+            else (ok && recs_eqb recs [(1%Z, None)], m)
+        | None =>
+            (ok && recs_eqb recs [(0%Z, Some (tu, u, va))], m ++ [mkUmeta tu key_better u va])
+        end
+    end in
+  let '(ok, m) := fold_left step items (true, []) in
+  ok && forallb (fun '(x, got) =>
+          option_eqb ometa_eqb (option_map ometa_of (units_find m (tidyf x) key_better)) got) gets.
+
 Definition corr_ok (c : case) : bool :=
   match c with
   | KTable sp a b c' =>
@@ -112,6 +159,8 @@ Definition corr_ok (c : case) : bool :=
          | None => true
          end
       && forallb (fun '(lit, got) => Bool.eqb (unit_match (beq lit) rv) got) fl
+  | KSeq lit items gets =>
+      seq_ok (fun u => snd (tidy isp b64_one u)) (read_value isp) lit items gets
   end.
 
 (** the specification on what the implementation was seen to do *)
@@ -159,6 +208,7 @@ Definition prop_ok (c : case) : bool :=
          end
       (* .unit:lit keeps the value iff lit names the base or the written unit *)
       && forallb (fun '(lit, got) => Bool.eqb (beq lit su || beq lit u) got) fl
+  | KSeq lit items gets => seq_ok (spec_unit isp) (spec_value isp) lit items gets
   end.
 
 Definition run_case (s : sx) : N :=
